@@ -163,9 +163,28 @@ func (o payloaderOpts) minMTU() int {
 type mediaGen struct {
 	kind      int
 	h264State int
+	prev      []byte
 }
 
+// next returns the next frame; one frame in twelve is the previous frame again, or differs from it in one
+// byte or in its last byte (consecutive frames of real streams are often near-identical).
 func (g *mediaGen) next(t *core.Tape, mtu int) []byte {
+	if g.prev != nil && g.h264State == 0 && len(g.prev) > 2 && len(g.prev) < 20000 && t.Chance(1, 12) {
+		m := append([]byte(nil), g.prev...)
+		switch t.Intn(3) {
+		case 1:
+			m[t.Intn(len(m))] ^= 1 << uint(t.Intn(8))
+		case 2:
+			m = m[:len(m)-1]
+		}
+		return m
+	}
+	m := g.fresh(t, mtu)
+	g.prev = m
+	return m
+}
+
+func (g *mediaGen) fresh(t *core.Tape, mtu int) []byte {
 	switch g.kind {
 	case kH264, kH264AVC:
 		return genH264AU(t, mtu, true, &g.h264State).annexb
